@@ -14,6 +14,10 @@ fn finish_online(ctx: &Ctx, mut rep: Report, pid: &str, rule: &str, assumptions:
 
 const W_RULE: &str = "W = generated cases (swarm-configured program generator: raw bytes, opcode-weighted statements, templates for call family / CREATE / CREATE2 / SELFDESTRUCT / SSTORE ladders / logs / precompiles / 7702 delegations; worlds of 8-14 accounts incl. balances near 2^256, nonces near 2^64, storage-only and empty accounts; legacy/2930/1559/4844/7702 transactions; 1-3 transactions per case; random SpecId). Every case runs plain and under the monitoring inspector on the real Evm (fresh Evm per transaction over one evolving RefDB); monitor verdicts are used only where both runs agree. Non-trivial = >= 5 executed instructions and >= 1 call/create; distinct by hash of (world, block, txs, spec).";
 
+thread_local! {
+    static C10_LADDER: std::cell::RefCell<Option<Report>> = const { std::cell::RefCell::new(None) };
+}
+
 fn std_assumptions() -> Vec<String> {
     vec!["the inspector callbacks are the observation points; their own fidelity is C28/C29's subject and is cross-checked by running every case without inspector as well".into()]
 }
@@ -103,6 +107,11 @@ fn run_w(ctx: &Ctx, pid: &str, nq: u64, nt: u64, snapshots: bool, bias: fn(&mut 
     let n = ctx.n(nq, nt);
     let wl = Workload { include_osaka: true, snapshots, max_txs: 3 };
     rep = run_generated(ctx, n, &wl, bias);
+    if pid == "C10" {
+        if let Some(r) = C10_LADDER.with(|c| c.borrow_mut().take()) {
+            rep.merge(r);
+        }
+    }
     for (k, need) in floors {
         let have = rep.counter(k);
         rep.floor(k, have, *need);
@@ -185,7 +194,76 @@ pub fn run_c09(ctx: &Ctx) -> i32 {
     "After every executed transaction: intrinsic (own formula per fork) <= gas_used + refund, gas_used <= gas_limit, Prague floor, refund cap q=2|5, no refund on revert/halt (via payments), halt uses the whole limit; closed-form sender payment and beneficiary reward on the sub-workload whose code/data cannot name sender or beneficiary (no ORIGIN/CALLER/COINBASE executed, no literal address).")
 }
 
+/// C10 directed sweep (OSAKA): a legacy contract STATICCALLs, with every gas amount of a ladder, an
+/// EOF contract whose first instruction is a writer (EXTCALL with value to an existing / a new
+/// account, TSTORE, SSTORE, LOG0, EOFCREATE). The order of the static check and the gas checks inside
+/// an instruction is only observable at particular amounts of remaining gas.
+fn c10_eof_gas_ladder() -> Vec<(String, Case)> {
+    use revm::interpreter::opcode as op;
+    let mut out = vec![];
+    let push_addr = |c: &mut Vec<u8>, a: revm::primitives::Address| {
+        c.push(0x73);
+        c.extend_from_slice(a.as_slice());
+    };
+    let sub = crate::eofgen::encode(&[(0, 0x80, 0)], &[vec![op::INVALID]], &[], &[], 0);
+    let writers: Vec<(&str, Vec<u8>, u16, Vec<Vec<u8>>)> = vec![
+        ("EXTCALL-value-existing", { let mut c = vec![0x60, 0x01, 0x5f, 0x5f]; push_addr(&mut c, C3); c.extend_from_slice(&[op::EXTCALL, op::POP, op::STOP]); c }, 4, vec![]),
+        ("EXTCALL-value-new-account", { let mut c = vec![0x60, 0x01, 0x5f, 0x5f]; push_addr(&mut c, NONEXISTENT); c.extend_from_slice(&[op::EXTCALL, op::POP, op::STOP]); c }, 4, vec![]),
+        ("TSTORE", vec![0x60, 0x01, 0x5f, op::TSTORE, op::STOP], 2, vec![]),
+        ("SSTORE", vec![0x60, 0x01, 0x5f, op::SSTORE, op::STOP], 2, vec![]),
+        ("LOG0", vec![0x5f, 0x5f, op::LOG0, op::STOP], 2, vec![]),
+        ("EOFCREATE", vec![0x5f, 0x5f, 0x5f, 0x5f, op::EOFCREATE, 0x00, op::POP, op::STOP], 4, vec![{
+            // init container: RETURNCONTRACT(0, 0, 0) of a trivial runtime container
+            crate::eofgen::encode(&[(0, 0x80, 2)], &[vec![0x5f, 0x5f, op::RETURNCONTRACT, 0x00]], &[sub.clone()], &[], 0)
+        }]),
+    ];
+    let ladder: Vec<u64> = vec![0, 1, 2, 3, 50, 99, 100, 101, 200, 375, 500, 1000, 2099, 2100, 2200, 2299, 2300, 2301, 2599, 2600, 2700, 3000, 5000, 7000, 9000, 9099, 9100, 9200, 11_000, 11_399, 11_400, 11_500, 11_599, 11_600, 11_700, 12_000, 14_000, 20_000, 25_000, 32_000, 34_000, 36_600, 40_000, 60_000, 100_000];
+    for (name, code, max_stack, subs) in writers {
+        let eof = crate::eofgen::encode(&[(0, 0x80, max_stack)], &[code], &subs, &[], 0);
+        for warm in [false, true] {
+            for g in &ladder {
+                let mut a = Asm::new();
+                if warm {
+                    // touch the callee's targets first so that the cold surcharge is out of the way
+                    a.push_addr(C3).op(0x31).op(0x50).push_addr(NONEXISTENT).op(0x31).op(0x50);
+                }
+                a.push_u(0).push_u(0).push_u(0).push_u(0).push_addr(C2).push_u(*g).op(0xfa);
+                a.push_u(1).op(0x01).push_u(0).op(0x55).op(0x00);
+                let mut w = World::default();
+                let eth = U256::from(10u64).pow(U256::from(18u8));
+                w.accounts.insert(SENDER1, Acct { balance: eth, ..Default::default() });
+                w.accounts.insert(C1, Acct { nonce: 1, code: a.finish(), ..Default::default() });
+                w.accounts.insert(C2, Acct { nonce: 1, balance: U256::from(100u8), code: eof.clone(), ..Default::default() });
+                w.accounts.insert(C3, Acct { nonce: 1, code: vec![0x00], ..Default::default() });
+                let tx = TxSpec { to: Some(C1), gas_limit: 500_000, gas_price: U256::from(10u8), ..Default::default() };
+                out.push((format!("{name}/{}/gas={g}", if warm { "warm" } else { "cold" }), Case { spec: SpecId::OSAKA, world: w, block: BlockSpec::default(), txs: vec![tx] }));
+            }
+        }
+    }
+    out
+}
+
 pub fn run_c10(ctx: &Ctx) -> i32 {
+    if ctx.replay.is_none() {
+        // the directed ladder runs first, in this process, and its findings are merged below
+        let cases = c10_eof_gas_ladder();
+        let cr = &cases;
+        let r = par_shards(ctx, 16, |si, _rng, rep| {
+            for (j, (name, case)) in cr.iter().enumerate() {
+                if j % 16 != si {
+                    continue;
+                }
+                rep.eval();
+                rep.count("eof_static_gas_ladder_cases");
+                rep.cell("eof_static_gas_ladder_writers", name.split('/').next().unwrap_or("?"));
+                let st = check_case(case, rep, true, None);
+                if st.nontrivial {
+                    rep.nontrivial(case.hash());
+                }
+            }
+        });
+        C10_LADDER.with(|c| *c.borrow_mut() = Some(r));
+    }
     run_w(ctx, "C10", 12_000, 1_500_000, true, |rng, c| {
         // route the transaction through a STATICCALL trampoline into a pool contract
         if c.spec >= SpecId::BYZANTIUM && rng.chance(2, 3) {
@@ -219,8 +297,8 @@ pub fn run_c10(ctx: &Ctx) -> i32 {
                 if t.balance.is_zero() { t.balance = U256::from(10u8); }
             }
         }
-    }, &[("static_root_calls_checked", 300), ("static_writer_attempts/SSTORE", 50), ("static_writer_attempts/LOG", 20), ("static_writer_attempts/CALL-with-value", 10), ("static_writer_attempts/SELFDESTRUCT", 10), ("static_writer_attempts/CREATE", 10)],
-    "During frames with interp.is_static every attempted SSTORE/TSTORE/LOGn/CREATE/CREATE2/SELFDESTRUCT/value-CALL must end in an error at step_end; children of static frames must carry is_static; at the end of every outermost static call the projection of the journaled state (without warmth) equals the one at its start.")
+    }, &[("static_root_calls_checked", 300), ("static_writer_attempts/SSTORE", 50), ("static_writer_attempts/LOG", 20), ("static_writer_attempts/CALL-with-value", 10), ("static_writer_attempts/SELFDESTRUCT", 10), ("static_writer_attempts/CREATE", 10), ("eof_static_gas_ladder_cases", 500), ("static_writer_attempts/EXTCALL-with-value", 100), ("static_writer_attempts/EOFCREATE", 50)],
+    "During frames with interp.is_static every attempted SSTORE/TSTORE/LOGn/CREATE/CREATE2/SELFDESTRUCT/value-CALL must end in an error at step_end; children of static frames must carry is_static; at the end of every outermost static call the projection of the journaled state (without warmth) equals the one at its start. Directed (OSAKA): a legacy STATICCALL with each gas amount of a 45-step ladder (0..100000, dense around 2300 / 2600 / 9000 / 11600 / 34000) into an EOF contract whose first instruction is EXTCALL-with-value (existing and new target) / TSTORE / SSTORE / LOG0 / EOFCREATE, cold and warm.")
 }
 
 pub fn run_c11_online(ctx: &Ctx) -> Report {
